@@ -8,21 +8,29 @@ from .common import *
 
 CONFIGS = ['default', 'full']
 CONFIGS_THOROUGH = ['default', 'full', 'sdp']
-TECHNIQUE = 'monomial abstract interpretation (exact for the diagonal algebra of the nonnegative cone), call-sequence / transpose-flag rules on the shared symmetric-cone utilities, effect rule on the scaling state'
+TECHNIQUE = ('abstract interpretation of MIR over monomials (exact for the diagonal algebra of the nonnegative cone) and over '
+             'polynomials / rational functions on head-tail split vectors modulo the hyperboloid relation (second-order cone), '
+             'free-monoid words of matrix products (PSD cone), call-sequence / transpose-flag rules on the shared utilities, '
+             'effect analysis (reset completeness, one scaling state)')
 EXPLANATION = (
-    "The NT identities for the second-order and PSD cones are equalities between floating-point results of hand-derived "
-    "non-diagonal formulas and are NOT decided. Decided on the MIR of the current tree: (R1) for the nonnegative cone, "
-    "whose Jordan algebra is diagonal, every operation is a monomial in (s, z): the interpreter derives w = s^1/2 z^-1/2, "
-    "lambda = (s z)^1/2 and proves W z = W^-1 s = lambda, (W'W) z = s, mul_W/mul_Winv mutually inverse, Hs block = the "
-    "operator of mul_Hs = w^2, circ/inv_circ inverse, lambda-inverse, affine term lambda o lambda and the slack offset "
-    "W'(lambda \\ ds) = ds/z - for all inputs, as identities of monomials; (R2) the utilities shared by all symmetric "
-    "cones compose the primitives as documented: dz <- W dz (N), ds <- W^-T ds (Winv with T), shift = ds o dz - sigma mu e, "
-    "offset = W'(lambda \\ ds) (T); every symmetric cone routes combined_ds_shift through it with its arguments in "
-    "order; (R3) PSD mul_Hs is W'(W x) with flags (N, T), so the operator used to recover ds is built from the same "
-    "mul_W that the identities are about; the KKT block and that operator read one scaling state (C11.R5 rule, re-run "
-    "here).")
+    "Partial claim. NOT decided: lambda = W z and the ds-offset formula of the second-order cone (nested square roots of the "
+    "inputs), everything numerical about the PSD cone (Cholesky/SVD-based R, lambda, its Jordan products), the dense-triangle "
+    "packing loop of SOC get_Hs, and all rounding behaviour near the boundary. Decided on the MIR of the current tree, for all "
+    "inputs: (R1) nonnegative cone, exactly: w = (s/z)^1/2, lambda = (s z)^1/2, hence W z = W^-1 s = lambda and (W'W) z = s; "
+    "mul_W / mul_Winv mutually inverse; Hs block = operator of mul_Hs = w^2; circ / inv_circ / lambda-inverse; affine term "
+    "lambda o lambda; slack offset = W'(lambda \\ ds) = ds/z; (R2) the utilities shared by all symmetric cones compose the "
+    "primitives as documented (dz <- W dz (N), ds <- W^-T ds, shift = ds o dz - sigma mu e, offset = W'(lambda \\ ds)) and every "
+    "symmetric cone routes through them; (R3) PSD mul_Hs = W'(W x); KKT block and recovery operator read one scaling state; "
+    "(R4) second-order cone as polynomial identities over (head, tail) vectors: mul_W is the documented eta [w0 w1'; w1 I + "
+    "w1 w1'/(1+w0)]; mul_Winv at the reflected point (w0, -w1, 1/eta) is identical to mul_W; mul_Hs x = W(W x) modulo "
+    "w0^2 - <w1,w1> = 1; circ_op is the Jordan product and y o inv_circ_op(y, z) = z; (R5) that relation holds: the last write to "
+    "w on every successful path is w0 = sqrt(1 + <w1,w1>); (R6) PSD mul_W / mul_Winv are the words R'XR (N) and RXR' (T) over R "
+    "resp. Rinv; (R7) set_identity_scaling resets every field that update_scaling computes and an operator reads; (R8) the "
+    "sparse expansion written into the KKT matrix (diagonal d, columns u and v, extension diagonal, pivot signs) has Schur "
+    "complement eta^2 (2 w w' - J), proved as rational-function identities on the hyperboloid.")
 ASSUMPTIONS = ['rustc MIR construction and trait resolution are correct',
-               'sqrt, *, / on T are the real operations (monomial semantics); s, z > 0']
+               'sqrt, *, /, dot, norm, axpby, waxpby, scale on T are the real operations (identities are over the reals, not floating point); s, z interior',
+               'the diagonal KKT block is minus get_Hs (decided under C11)']
 
 NN = 'NonnegativeCone'
 
@@ -549,12 +557,200 @@ def reset_completeness(rep, ctx, cfg, tag):
             # a wrapper field alone (sparse_data, data) is navigation, not state
             state = {x for x in state if not any(y != x and y.startswith(x + '.') for y in wr)}
             R.check(nops >= 4 and len(state) >= 1, 'state|%s%s' % (K, tag), '%s: %d operator functions, scaling state %s (anchor drift)' % (K, nops, sorted(state)), us.loc())
-            iw = fields(ident, E.W)
+            from .c05 import whole_writes
+            whole, part = whole_writes(E, ident)
+            iw = set()
+            for ch in whole:
+                iw.add('.'.join(e[1] for e in ch))
+            ip = {'.'.join(e[1] for e in ch[:depth]) for ch in part}
             for x in sorted(state):
-                R.check(x in iw, 'reset|%s|%s%s' % (K, x, tag),
-                        '%s::set_identity_scaling does not reset `%s`, which update_scaling computes and the KKT block / W operators read: '
-                        'after a previous solve the identity scaling keeps a stale part' % (K, x), ident.loc())
+                # reset means rewritten as a whole (fill / copy / assignment), not element by element
+                ok = x in iw or any(x.startswith(y + '.') for y in iw)
+                R.check(ok, 'reset|%s|%s%s' % (K, x, tag),
+                        '%s::set_identity_scaling does not reset `%s` as a whole (%s), which update_scaling computes and the KKT block / W operators '
+                        'read: after a previous solve the identity scaling keeps a stale part' % (K, x, 'only element-wise' if x in ip else 'not at all'), ident.loc())
         R.check(n >= 2, 'cones' + tag, 'only %d symmetric cones analysed' % n)
+
+    R.guard(body)
+
+
+# ---------------------------------------------------------------------------
+# sparse expansion of the second-order cone: eta^2 (D + u u' - v v') must be eta^2 (2 w w' - J)
+# ---------------------------------------------------------------------------
+from engine.linform import RatF, to_ratf
+import re as _re
+
+
+def _nu():
+    return {((_dot_atom('W1', 'W1'), Fraction(1)),): Fraction(1)}
+
+
+def soc_sparse_expansion(rep, ctx, cfg, tag):
+    R = rep.rule('C13.R8', 'second-order cone, sparse expansion: the KKT block (diagonal D, columns u and v, extension diagonal) has Schur '
+                           'complement eta^2 (2 w w\' - J), the operator of mul_Hs (rational-function identities modulo w0^2 - <w1,w1> = 1)')
+
+    def body():
+        F, E = ctx.facts(cfg), ctx.eff(cfg)
+        reg = {}
+        f = F.one(name='update_scaling', adt=SOC, trait='Cone')
+
+        def atoms(k, s_):
+            if k.startswith('_sqrt_soc_residual(') or k.startswith('_soc_residual('):
+                return ('S', P_atom(k))
+            if 'sparse_data' in k and k.endswith('.u'):
+                return _Pv('uold0', 'UOLD1')
+            if 'sparse_data' in k and k.endswith('.v'):
+                return _Pv('vold0', 'VOLD1')
+            return None
+        I = LFSplit(F, E, f, atoms, reg)
+        found = None
+        for val, ret, ev, tr in Walker(f, cut_loops=True).leaves():
+            if not (ret[0] == 'c' and ret[1] == 1):
+                continue
+            if not any('sparse_data' in k and v == 1 for k, v in val.items()):
+                continue
+            st = {'arg2': _Pv('s0', 'S1'), 'arg3': _Pv('z0', 'Z1'), 'self.w': _Pv('wold0', 'WOLD1'), 'self.λ': _Pv('lold0', 'LOLD1')}
+            rebound = False
+            for e in ev:
+                if e[0] == 'call':
+                    I.apply_call(st, e[4])
+                elif e[0] == 'store':
+                    rv = f.sym_rvalue(e[4]['rv'])
+                    tgt = canon(f.sym_place(e[4]['p']))
+                    I.set_place(st, f.sym_place(e[4]['p']), I.ev(st, rv))
+                    if tgt == 'index_mut(self.w, 0_usize)' and canon(rv).startswith('sqrt(add('):
+                        # C13.R5 proves this is the last write to w and that w0 = sqrt(1 + <w1,w1>): from here on w is a
+                        # fresh point (w0, W1) on the hyperboloid and the <w1,w1> already taken is <W1,W1>
+                        old = None
+                        for k2, v2 in st.items():
+                            if k2.startswith('sumsq(index(self.w, RangeFrom'):
+                                old = v2
+                        st['self.w'] = _Pv('w0', 'W1')
+                        if old is not None:
+                            for k2 in list(st):
+                                if st[k2] is not None and st[k2] == old:
+                                    st[k2] = ('S', _nu())
+                        rebound = True
+                elif e[0] == 'assign' and isinstance(e[4], dict):
+                    st['var:' + e[1]] = I.ev(st, f.sym_rvalue(e[4]['rv']))
+            found = (st, rebound)
+        if found is None:
+            R.bad('sparse-path' + tag, 'no successful path of update_scaling with sparse data (anchor drift)', f.loc())
+            return
+        st, rebound = found
+        R.check(rebound, 'normalisation-point' + tag, 'the normalisation store w[0] = sqrt(1 + <w1,w1>) was not found on the sparse path', f.loc())
+
+        def field(nm):
+            ks = [k for k in st if _re.fullmatch(r'self\.sparse_data.*\.%s' % nm, k)]
+            return st[ks[0]] if len(ks) == 1 else None
+        d, u, v = field('d'), field('u'), field('v')
+        shape_ok = (d is not None and d[0] == 'S' and u is not None and u[0] == 'P' and v is not None and v[0] == 'P'
+                    and set(u[2]) <= {((), 'W1')} and set(v[2]) <= {((), 'W1')})
+        R.check(shape_ok, 'uvd-shape' + tag, 'sparse data is not (d scalar, u = [u0; u1 w1], v = [v0; v1 w1]): d=%s u=%s v=%s' % (
+            d and d[0], u and (u[0], sorted(map(str, u[2])) if u[0] == 'P' else ''), v and (v[0], sorted(map(str, v[2])) if v[0] == 'P' else '')), f.loc())
+        if not shape_ok:
+            return
+        u0, v0 = u[1], v[1]
+        u1, v1 = u[2].get(((), 'W1'), {}), v[2].get(((), 'W1'), {})
+        # diagonal block
+        gh = F.one(name='get_Hs', adt=SOC, trait='Cone')
+        I2 = LFSplit(F, E, gh, lambda k, s_: ('S', P_atom('dd')) if ('sparse_data' in k and k.endswith('.d')) else None, {})
+        hd = None
+        for val, ret, st2 in I2.run({'self.η': _Sv('eta'), 'arg2': _Pv('h0', 'H1')}):
+            if any('sparse_data' in k and v_ == 1 for k, v_ in val.items()):
+                hd = st2.get('arg2')
+        eta2 = P_mul(P_atom('eta'), P_atom('eta'))
+        ok = hd is not None and hd[0] == 'P' and hd[1] == P_mul(eta2, P_atom('dd')) and L_key(hd[2]) == L_key(L_scale(L_atom('ONES'), eta2))
+        R.check(ok, 'diag-block' + tag, 'get_Hs (sparse form) returns %s, expected eta^2 [d, 1, .., 1]' % ('[%s ; %s]' % (P_fmt(hd[1]), L_fmt(hd[2])) if hd and hd[0] == 'P' else hd), gh.loc())
+        # KKT side: which extension column carries u / v, their scale factors and the extension diagonal
+        upd = [g for g in F.find(name='csc_update_sparsecone') if SOC in (g.impl_self or '')]
+        fil = [g for g in F.find(name='csc_fill_sparsecone') if SOC in (g.impl_self or '')]
+        if len(upd) != 1 or len(fil) != 1:
+            R.bad('kkt-anchors' + tag, 'csc_update_sparsecone / csc_fill_sparsecone for the second-order cone: %d / %d' % (len(upd), len(fil)))
+            return
+        upd, fil = upd[0], fil[0]
+        pos = {}
+        for val, ret, ev, tr in Walker(fil, cut_loops=True).leaves():
+            if ret[0] == 'diverge':
+                continue
+            here = {}
+            for e in ev:
+                if e[0] == 'call' and e[1] in ('fill_colvec', 'fill_rowvec', 'fill_diag'):
+                    a = split_args(e[2])
+                    which = a[1].rsplit('.', 1)[-1]
+                    offs = [x for x in a[2:] if 'arg5' in x]
+                    off = None
+                    if len(offs) == 1:
+                        off = 0 if offs[0] == 'arg5' else (1 if offs[0].replace('withoverflow', '').startswith('add(arg5, 1_usize)') else None)
+                    here[which] = off
+            for k, o in here.items():
+                if k in pos and pos[k] != o:
+                    R.bad('fill-arms-agree' + tag, 'the triu and tril arms place %s at different offsets' % k, fil.loc())
+                pos[k] = o
+        R.check(set(pos) == {'u', 'v', 'D'} and pos.get('D') == 0 and sorted([pos.get('u'), pos.get('v')]) == [0, 1], 'fill-positions' + tag,
+                'extension columns: %s (expected u and v at the two columns starting at col, D at col)' % pos, fil.loc())
+        Iu = LFSplit(F, E, upd, lambda k, s_: None, {})
+        st3 = {'self.η': _Sv('eta')}
+        coef, src, order, dvals = {}, {}, [], None
+        for c in upd.calls:
+            if not c.callee.indirect:
+                continue
+            role = canon(upd.sym_operand(c.callee.indirect))
+            a = [upd.sym_operand(x) for x in c.args]
+            which = canon(a[2]).rsplit('.', 1)[-1]
+            order.append((role, which))
+            if role == 'arg5' and which in ('u', 'v'):
+                src[which] = canon(a[3]).rsplit('.', 1)[-1]
+                coef[which] = P_const(1)
+            elif role == 'arg6' and which in ('u', 'v'):
+                val = Iu.ev(st3, a[3])
+                coef[which] = P_mul(coef.get(which, {}), val[1]) if val is not None and val[0] == 'S' and which in coef else None
+            elif role == 'arg5' and which == 'D':
+                arr = a[3]
+                while arr[0] in ('cast', 'ref', 'deref'):
+                    arr = arr[1]
+                if arr[0] == 'agg' and len(arr[2]) == 2:
+                    dv = [Iu.ev(st3, x) for x in arr[2]]
+                    dvals = [x[1] if x is not None and x[0] == 'S' else None for x in dv]
+        R.check(src == {'u': 'u', 'v': 'v'} and all(coef.get(k) for k in ('u', 'v')) and dvals is not None and None not in dvals, 'kkt-update-shape' + tag,
+                'csc_update_sparsecone: sources %s, scale factors %s, extension diagonal %s; order %s' % (src, {k: (P_fmt(x) if x else x) for k, x in coef.items()}, dvals and [P_fmt(x) if x else x for x in dvals], order), upd.loc())
+        if not (src == {'u': 'u', 'v': 'v'} and all(coef.get(k) for k in ('u', 'v')) and dvals and None not in dvals and pos.get('u') in (0, 1) and pos.get('v') in (0, 1)):
+            return
+        for k in ('u', 'v'):
+            R.check(order.index(('arg5', k)) < order.index(('arg6', k)), 'scale-after-update|%s%s' % (k, tag), 'column %s is scaled before its values are written' % k, upd.loc())
+        hyper = ({_dot_atom('W1', 'W1'): 1}, P_add(P_mul(P_atom('w0'), P_atom('w0')), P_const(-1)))
+        Q = lambda p_: to_ratf(p_, reg)
+        CU = Q(P_mul(coef['u'], coef['u'])) / Q(dvals[pos['u']])
+        CV = Q(P_mul(coef['v'], coef['v'])) / Q(dvals[pos['v']])
+        E2 = Q(eta2)
+        two, one = RatF(P_const(2)), RatF(P_const(1))
+        W0 = Q(P_atom('w0'))
+        checks = [
+            ('head-head', E2 * Q(d[1]) + CU * Q(P_mul(u0, u0)) + CV * Q(P_mul(v0, v0)), E2 * (two * W0 * W0 - one), 'eta^2 d + cu u0^2 + cv v0^2 = eta^2 (2 w0^2 - 1)'),
+            ('head-tail', CU * Q(P_mul(u0, u1)) + CV * Q(P_mul(v0, v1)), E2 * two * W0, 'cu u0 u1 + cv v0 v1 = 2 eta^2 w0'),
+            ('tail-tail', CU * Q(P_mul(u1, u1)) + CV * Q(P_mul(v1, v1)), E2 * two, 'cu u1^2 + cv v1^2 = 2 eta^2'),
+        ]
+        for nm, lhs, rhs, what in checks:
+            try:
+                z = (lhs - rhs).is_zero([hyper])
+            except Exception as ex:
+                z = False
+                what += ' (%r)' % ex
+            R.check(z, 'identity|%s%s' % (nm, tag),
+                    'sparse expansion of W\'W: %s does not hold as an identity in (w0, w1, eta) on the hyperboloid; the KKT block is not the operator mul_Hs applies' % what, f.loc())
+        # signs the LDL factorisation is told to expect for the two extension pivots
+        ds = [g for g in F.find(name='Dsigns') if 'SOCExpansionMap' in (g.impl_self or '') + (g.impl_adt or '')]
+        if len(ds) == 1:
+            txt = canon(ds[0].sym_local(0))
+            m = _re.findall(r'(-?\d+)_i8', txt)
+            sg = []
+            for x in dvals:
+                cs_ = set((c_ > 0) for c_ in x.values())
+                sq = all(all(int(e_) % 2 == 0 for a_, e_ in mono) for mono in x)
+                sg.append((1 if cs_ == {True} else -1) if (len(cs_) == 1 and sq) else None)
+            R.check(len(m) == 2 and [int(t) for t in m] == sg, 'Dsigns' + tag, 'declared pivot signs %s, extension diagonal %s has signs %s' % (m, [P_fmt(x) for x in dvals], sg), ds[0].loc())
+        else:
+            R.bad('Dsigns-anchor' + tag, 'SOCExpansionMap::Dsigns matched %d functions' % len(ds))
 
     R.guard(body)
 
@@ -568,6 +764,7 @@ def run(ctx, rep, tier):
         soc_normalisation(rep, ctx, cfg, tag)
         psd_words(rep, ctx, cfg, tag)
         reset_completeness(rep, ctx, cfg, tag)
+        soc_sparse_expansion(rep, ctx, cfg, tag)
     from . import c11
     F, E = ctx.facts('default'), ctx.eff('default')
     c11.one_scaling_state(_Ren(rep, 'C11.R5', 'C13.R3'), F, E, '')
